@@ -26,11 +26,13 @@ pub struct Cfg {
     pub mint_pct: u64,
     /// C09: datum/redeemer heavy programs, integers over the whole i128 range, long byte strings
     pub datum_focus: bool,
+    /// C08: every input / mint / burn / withdrawal block carries a redeemer with high probability
+    pub redeemer_focus: bool,
 }
 
 impl Default for Cfg {
     fn default() -> Self {
-        Cfg { cardano_pct: 10, redeemers: true, risky_pct: 25, boundary_ints: false, max_txs: 2, balanced: false, min_utxo: false, max_cases: 4, datum_pct: 60, mint_pct: 40, datum_focus: false }
+        Cfg { cardano_pct: 10, redeemers: true, risky_pct: 25, boundary_ints: false, max_txs: 2, balanced: false, min_utxo: false, max_cases: 4, datum_pct: 60, mint_pct: 40, datum_focus: false, redeemer_focus: false }
     }
 }
 
@@ -142,8 +144,9 @@ impl<'r> Builder<'r> {
     }
 
     fn stake_party(&mut self) -> String {
-        if let Some(d) = self.g.parties.iter().find(|d| d.role == Role::StakeAddr) {
-            return d.name.clone();
+        let have: Vec<String> = self.g.parties.iter().filter(|d| d.role == Role::StakeAddr).map(|d| d.name.clone()).collect();
+        if !have.is_empty() && !(self.cfg.redeemer_focus && have.len() < 3 && self.rng.bool()) {
+            return self.rng.pick(&have).clone();
         }
         let n = self.name("S");
         self.g.parties.push(Decl { name: n.clone(), ty: Ty::Address, role: Role::StakeAddr });
@@ -792,7 +795,7 @@ impl<'r> Builder<'r> {
         let nin = 1 + self.rng.usize(3);
         for _ in 0..nin {
             let name = self.name("in");
-            let many = self.rng.chance(1, 4);
+            let many = self.rng.chance(1, 4) || (self.cfg.redeemer_focus && self.rng.chance(1, 3));
             let mut inp = Input { name: name.clone(), many, ..Default::default() };
             if many {
                 self.tag("many-input");
@@ -827,7 +830,7 @@ impl<'r> Builder<'r> {
             // the redeemer may read the datums of the inputs declared *before* this one: the code under
             // test resolves an input name to a copy of the whole block, so reference cycles (an input
             // whose redeemer reads its own datum) are C13's subject, not C01's
-            if self.cfg.redeemers && self.rng.chance(1, 3) {
+            if self.cfg.redeemers && (self.rng.chance(1, 3) || (self.cfg.redeemer_focus && self.rng.chance(3, 4))) {
                 inp.redeemer = Some(self.any_datum(Pos::Datum));
                 self.tag("spend-redeemer");
             }
@@ -865,7 +868,7 @@ impl<'r> Builder<'r> {
                 }
                 // the ledger has one redeemer per policy: a redeemer is only written on blocks that
                 // name a single asset
-                let redeemer = if self.cfg.redeemers && single_policy && self.rng.bool() { Some(self.any_datum(Pos::Plain)) } else { None };
+                let redeemer = if self.cfg.redeemers && single_policy && (self.rng.bool() || self.cfg.redeemer_focus) { Some(self.any_datum(Pos::Plain)) } else { None };
                 if redeemer.is_some() {
                     self.tag("mint-redeemer");
                 }
@@ -884,8 +887,26 @@ impl<'r> Builder<'r> {
             } else {
                 self.token_atom()
             };
-            // the ledger has one redeemer slot per policy: reuse the mint's redeemer expression
-            let redeemer = None;
+            // the ledger has one redeemer slot per policy: a burn carries its own redeemer only when
+            // no mint block of this tx names the same policy
+            let burn_policy = match &amount {
+                E::AssetCall(a, _) => self.g.prog.assets.iter().find(|d| d.name == *a).map(|d| d.policy.clone()),
+                _ => None,
+            };
+            let clash = match &burn_policy {
+                None => true,
+                Some(p) => self.cur_tx.mints.iter().any(|m| {
+                    let mut names = vec![];
+                    collect_asset_calls(&m.amount, &mut names);
+                    names.iter().any(|n| self.g.prog.assets.iter().any(|d| d.name == *n && d.policy == *p)) || contains_any_asset(&m.amount)
+                }),
+            };
+            let redeemer = if self.cfg.redeemers && !clash && self.rng.chance(2, 3) {
+                self.tag("burn-redeemer");
+                Some(self.any_datum(Pos::Plain))
+            } else {
+                None
+            };
             self.cur_tx.burns.push(MintBlock { amount, redeemer });
             self.tag("burn");
         }
@@ -916,7 +937,7 @@ impl<'r> Builder<'r> {
         if self.cfg.balanced {
             // final output = everything consumed - everything else produced - fees
             let mut e: Option<E> = None;
-            let mut add = |e: &mut Option<E>, t: E, plus: bool| {
+            let add = |e: &mut Option<E>, t: E, plus: bool| {
                 *e = Some(match e.take() {
                     None => {
                         if plus {
@@ -1025,6 +1046,24 @@ impl<'r> Builder<'r> {
             }
         }
 
+        if self.cfg.redeemer_focus {
+            let mut used: Vec<String> = self.cur_tx.cardano.iter().filter_map(|c| if let Cardano::Withdrawal { from: E::Party(p), .. } = c { Some(p.clone()) } else { None }).collect();
+            for _ in 0..self.rng.usize(3) {
+                let p = self.stake_party();
+                if used.contains(&p) {
+                    continue;
+                }
+                used.push(p.clone());
+                let amount = self.typed_int();
+                let redeemer = if self.rng.chance(3, 4) { Some(self.any_datum(Pos::Plain)) } else { None };
+                if redeemer.is_some() {
+                    self.tag("withdrawal-redeemer");
+                }
+                self.cur_tx.cardano.push(Cardano::Withdrawal { from: E::Party(p), amount, redeemer });
+                self.tag("withdrawal");
+            }
+        }
+
         let tx = std::mem::take(&mut self.cur_tx);
         self.g.prog.txs.push(tx);
         let meta = std::mem::take(&mut self.cur);
@@ -1121,6 +1160,27 @@ impl<'r> Builder<'r> {
         }
         self.g.prog.tags = std::mem::take(&mut self.tags);
         self.g
+    }
+}
+
+fn collect_asset_calls(e: &E, out: &mut Vec<String>) {
+    match e {
+        E::AssetCall(a, _) => out.push(a.clone()),
+        E::Add(a, b) | E::Sub(a, b) => {
+            collect_asset_calls(a, out);
+            collect_asset_calls(b, out);
+        }
+        E::Paren(a) | E::Neg(a) | E::Local(_, a) => collect_asset_calls(a, out),
+        _ => {}
+    }
+}
+
+fn contains_any_asset(e: &E) -> bool {
+    match e {
+        E::AnyAsset(..) => true,
+        E::Add(a, b) | E::Sub(a, b) => contains_any_asset(a) || contains_any_asset(b),
+        E::Paren(a) | E::Neg(a) | E::Local(_, a) => contains_any_asset(a),
+        _ => false,
     }
 }
 
@@ -1242,6 +1302,7 @@ pub fn world(g: &Generated, ti: usize, rng: &mut Rng, cfg: &Cfg) -> World {
     let sem = super::sem::Sem::new(&g.prog, &w);
     let mut inputs = BTreeMap::new();
     let mut counter = 0u8;
+    let mut used_refs: Vec<(Vec<u8>, u64)> = vec![];
     for (name, datum_ty, many) in &g.txs[ti].inputs {
         let block = tx.inputs.iter().find(|i| i.name == *name).unwrap();
         let n = if *many { 1 + rng.usize(3) } else { 1 };
@@ -1266,9 +1327,14 @@ pub fn world(g: &Generated, ti: usize, rng: &mut Rng, cfg: &Cfg) -> World {
                 }
             }
             // the referenced UTxO when the block names one by literal / param
+            // (two blocks naming the same reference must not be given the same UTxO: one UTxO is
+            // never spent through two blocks)
             let (txid, index) = match (&block.rf, k) {
                 (Some(e), 0) => match sem.eval(e) {
-                    Ok(V::Refs(r)) if r.len() == 1 => (r[0].0.clone(), r[0].1),
+                    Ok(V::Refs(r)) if r.len() == 1 && !used_refs.contains(&r[0]) => {
+                        used_refs.push(r[0].clone());
+                        (r[0].0.clone(), r[0].1)
+                    }
                     _ => (fresh_txid(rng, counter), rng.below(6)),
                 },
                 _ => (fresh_txid(rng, counter), rng.below(6)),
